@@ -12,7 +12,9 @@ From Akita Require Import Lib.Base C20.Model C20.Proofs1 C20.Proofs2 C20.Proofs3
 Local Open Scope N_scope.
 
 (** For every capacity, unit size > 0 and history of reads, writes, checkpoint
-    round trips, truncated and re-shaped checkpoint loads: every result equals
+    round trips into a fresh storage, saves kept aside and later restored into
+    the current (dirty, non-fresh) storage, truncated and re-shaped checkpoint
+    loads: every result equals
     that of the flat array (reads return the bytes last written, out-of-range
     accesses fail), and the final contents are the flat array's contents at
     every address. *)
@@ -70,6 +72,21 @@ Theorem c20_reachable_inv : forall cap unit ops,
   Inv (fst (run false (new_storage cap unit) ops)).
 Proof. exact run_inv. Qed.
 Print Assumptions c20_reachable_inv.
+
+(** Rolling back: a stream saved from ANY storage of the same shape, loaded into
+    ANY other storage of that shape (whatever units it has allocated since),
+    replaces the contents by the saved ones at every address. *)
+Theorem c20_load_replaces : forall saved cur, Inv saved -> Inv cur ->
+  s_cap cur = s_cap saved -> s_unit cur = s_unit saved ->
+  exists st', load cur (save saved) = Some st' /\ Inv st' /\
+              (forall a, contents st' a = contents saved a) /\ save st' = save saved.
+Proof.
+  intros saved cur I Ic Sc Su. destruct (load_save saved cur I (conj Sc Su)) as [st' [L [I' [[Sc' Su'] M]]]].
+  exists st'. split; [exact L|]. split; [exact I'|]. split.
+  - apply contents_meq; assumption.
+  - apply save_meq; [exact I|exact I'|split; assumption|exact M].
+Qed.
+Print Assumptions c20_load_replaces.
 
 (** Checkpoint: whatever order the unit map is ranged over, the stream is the
     same; loading it into a fresh storage of the same shape succeeds and
@@ -133,11 +150,14 @@ Print Assumptions c20_model_agreement_implies_property.
     capacity, a wrapping read and a checkpoint in the middle. *)
 Example c20_nonvacuous :
   let ops := [OWrite 5 [1; 2; 3; 4; 5; 6]; ORead 3 10; OWrite 11 [7; 8; 9]; OCkpt;
-              ORead 18446744073709551612 8; ORead 0 13; OLoadTrunc 30; ORead 12 1] in
+              ORead 18446744073709551612 8; ORead 0 13; OLoadTrunc 30; ORead 12 1;
+              OSave; OWrite 0 [9; 9]; OWrite 6 [8]; ORestore; ORead 0 13] in
   Forall wf_op ops /\
   map proj (snd (run false (new_storage 13 4) ops)) =
     [Some (FOk []); Some (FOk [0; 0; 1; 2; 3; 4; 5; 6; 0; 0]); Some FErr; Some (FOk []);
-     Some FErr; Some (FOk [0; 0; 0; 0; 0; 1; 2; 3; 4; 5; 6; 0; 0]); Some FErr; Some (FOk [0])] /\
+     Some FErr; Some (FOk [0; 0; 0; 0; 0; 1; 2; 3; 4; 5; 6; 0; 0]); Some FErr; Some (FOk [0]);
+     Some (FOk []); Some (FOk []); Some (FOk []); Some (FOk []);
+     Some (FOk [0; 0; 0; 0; 0; 1; 2; 3; 4; 5; 6; 0; 0])] /\
   Inv (fst (run false (new_storage 13 4) ops)).
 Proof.
   intro ops.
